@@ -9,6 +9,7 @@ package wal
 
 //@ func NewWAL
 //@   ensures[C08] err == nil ==> result0 != nil && fresh(result0) && result0.nextSequence == 1
+//@   ensures[C07] err == nil ==> lockstate(result0.mu) == 0 && lockstate(result0.observersMu) == 0
 //@   ensures[C08] err != nil ==> result0 == nil
 //@ func ReuseWAL
 //@   ensures[C08] err == nil && result0 != nil ==> fresh(result0) && result0.nextSequence == nextSeq
